@@ -725,7 +725,7 @@ def run(ctx: Ctx) -> Outcome:
         d = subst_roots(c["doc"], base)
         flav["corpus"] = flav.get("corpus", 0) + 1
         run_doc(ctx, out, base, d, "plain", c["orders"], req, pending)
-    ndocs = pick(ctx, 110, 650)
+    ndocs = pick(ctx, 110, 500)
     for n in range(ndocs):
         r = rng.random()
         key = "empty52" if r < 0.75 else rng.choice([k for k in bases if k != "empty52"])
